@@ -583,6 +583,13 @@ class Var:
 class Env:
     def __init__(self, vs=None): self.vs = list(vs or [])
     def declare(self, name, g, ty):
+        # a new Rust variable that shadows a visible one gets its own Gallina name: the state tuples of the enclosing
+        # loops keep referring to the shadowed variable
+        used = {v.g for v in self.vs}
+        if g != "_" and g in used:
+            k = 1
+            while "%s%d" % (g, k) in used: k += 1
+            g = "%s%d" % (g, k)
         v = Var(name, g, ty); return Env(self.vs + [v]), v
     def lookup(self, name):
         for v in reversed(self.vs):
@@ -1232,8 +1239,14 @@ class Translator:
                 i, ti = self.ex(idx[1][0], env, B); j, tj = self.ex(idx[1][1], env, B)
                 place2 = ("index", base, ("tuple", [("rawtext", i, "usize"), ("rawtext", j, "usize")]))
             else: self.bad("compound assignment through an index into a %s" % (bty,))
-            old, to = self.ex(place2, env, B)
-            r, tr = self.ex(rhs, env, B)
+            if bty in LISTS and LISTS[bty] in ("usize", "isize"):
+                # primitive operands: the right operand is evaluated before the place is read (Rust reference, compound
+                # assignment on primitive types)
+                r, tr = self.ex(rhs, env, B)
+                old, to = self.ex(place2, env, B)
+            else:
+                old, to = self.ex(place2, env, B)
+                r, tr = self.ex(rhs, env, B)
             new, tn = self.binop(("bin", bop, ("rawtext", old, to), ("rawtext", r, tr)), env, B)
             self.assign_place(place2, new, tn, env, B)
             return wrap(B, rest(env))
